@@ -1,5 +1,7 @@
 import networkx as nx
 from pathlib import Path
+from typing import Any
+from tucan.graph_attributes import MASS, RAD
 from tucan.graph_utils import graph_from_molecule
 from tucan.io.exception import MolfileParserException
 from tucan.io.molfile_v2000_reader import graph_attributes_from_molfile_v2000
@@ -61,4 +63,17 @@ def graph_from_molfile_text(molfile: str) -> nx.Graph:
     else:
         raise MolfileParserException(f'Unsupported Molfile version "{molfile_version}"')
 
+    _validate_atom_attributes(atom_attrs)
+
     return graph_from_molecule(atom_attrs, bond_attrs)
+
+
+def _validate_atom_attributes(atom_attrs: dict[int, dict[str, Any]]) -> None:
+    # Isotope masses and radical states are positive (0 means "not set" and is
+    # dropped by the readers). A negative value cannot be written to a TUCAN string.
+    for atom_index, attrs in atom_attrs.items():
+        for key in [MASS, RAD]:
+            if key in attrs and attrs[key] < 0:
+                raise MolfileParserException(
+                    f'Invalid value {attrs[key]} for "{key}" of atom {atom_index + 1}'
+                )
